@@ -211,6 +211,101 @@ theorem toSrc_obj {w : World} {c : Nat} {r : Ref} {t : Tok} (h : resolve w r = s
     toSrc w c r = some (.obj t.pay) := by
   simp [toSrc, h, hc]
 
+/-! ### operands of `concat` and of the constructors -/
+
+theorem goodPrefix_pays (ps : List Nat) : goodPrefix (ps.map Arg.pay) = (ps, none) := by
+  induction ps with
+  | nil => rfl
+  | cons p ps ih => simp [goodPrefix, ih]
+
+theorem allGood_pays (ps : List Nat) : allGood (ps.map Arg.pay) = true := by simp [allGood, goodPrefix_pays]
+
+theorem listConcatArgs_pays (next : Nat) (xs : List Tok) (ps : List Nat) :
+    listConcatArgs next xs (ps.map Arg.pay) = { val := xs ++ mkFresh next ps, issued := mkFresh next ps } := by
+  simp [listConcatArgs, goodPrefix_pays]
+
+theorem arrayConcatArgs_pays (next : Nat) (xs : List Tok) (ps : List Nat) :
+    arrayConcatArgs next xs (ps.map Arg.pay) = { val := xs ++ mkFresh next ps, issued := mkFresh next ps } := by
+  simp [arrayConcatArgs, goodPrefix_pays]
+
+/-- an operand whose read gives `p` however many elements have been linked behind the `xs` the List held before the call -/
+def Stable (xs : List Tok) (s : CSrc) (p : Nat) : Prop := ∀ acc : List Tok, s.read (xs ++ acc) = some p
+
+/-- **List_Concat reads each operand when its push runs — and finds what was there before the call**: with operands that
+    are stable under pushes (fresh objects, elements of other containers, nodes of the receiver that existed before the
+    call) the item-by-item run constructs exactly one element per operand, carrying the payloads as they were. -/
+theorem listConcatSrc_stable (next : Nat) (xs : List Tok) {ss : List CSrc} {ps : List Nat}
+    (h : List.Forall₂ (Stable xs) ss ps) : ∀ acc : List Tok,
+    listConcatSrc next xs acc ss =
+      some { val := xs ++ (acc ++ mkFresh (next + acc.length) ps), issued := acc ++ mkFresh (next + acc.length) ps } := by
+  induction h with
+  | nil => intro acc; simp [listConcatSrc, mkFresh]
+  | cons hs _ ih =>
+    intro acc
+    simp only [listConcatSrc, hs acc]
+    rw [ih]
+    simp [mkFresh, List.length_append, Nat.add_assoc]
+
+/-- the operand the receiving List sees is stable, and reads the payload the reference resolves to before the call -/
+theorem toCSrc_spec {w : World} {c : Nat} {xs : List Tok} (hl : lookup w.objs c = some (.seq .list .probe xs)) (a : RArg) :
+    (resolveArg w a = none ∧ toCSrc w c xs a = none) ∨
+    (∃ p s, resolveArg w a = some p ∧ toCSrc w c xs a = some s ∧ Stable xs s p) := by
+  cases a with
+  | pay p => exact Or.inr ⟨p, .obj p, rfl, rfl, fun _ => rfl⟩
+  | ref r =>
+    simp only [resolveArg, toCSrc]
+    by_cases hc : r.c = c
+    · have hres : resolve w r = (Cont.seq .list .probe xs).pick r.sel := by simp [resolve, hc, hl]
+      rw [hres]
+      simp only [hc, if_true]
+      cases hsel : r.sel with
+      | key k => left; simp [Cont.pick]
+      | val k => left; simp [Cont.pick]
+      | elem i =>
+        simp only [Cont.pick]
+        cases hn : normIdx xs.length i with
+        | none => left; simp
+        | some j =>
+          simp only
+          cases hg : (xs[j]?).filter (fun t => t.id != 0) with
+          | none => left; simp
+          | some t =>
+            right
+            refine ⟨t.pay, .node j, by simp, by simp, fun acc => ?_⟩
+            have hj : j < xs.length := by
+              cases hx : xs[j]? with
+              | none => simp [hx] at hg
+              | some u => exact (List.getElem?_eq_some_iff.mp hx).1
+            simp [CSrc.read, List.getElem?_append_left hj, hg]
+    · simp only [hc, if_false]
+      cases hr : resolve w r with
+      | none => left; simp
+      | some t => right; exact ⟨t.pay, .obj t.pay, by simp, by simp, fun _ => rfl⟩
+
+theorem toCSrcs_spec {w : World} {c : Nat} {xs : List Tok} (hl : lookup w.objs c = some (.seq .list .probe xs))
+    (items : List RArg) :
+    (resolveArgs w items = none ∧ toCSrcs w c xs items = none) ∨
+    (∃ ps ss, resolveArgs w items = some ps ∧ toCSrcs w c xs items = some ss ∧ List.Forall₂ (Stable xs) ss ps) := by
+  induction items with
+  | nil => exact Or.inr ⟨[], [], rfl, rfl, .nil⟩
+  | cons a rest ih =>
+    simp only [resolveArgs, toCSrcs]
+    rcases toCSrc_spec hl a with ⟨h1, h2⟩ | ⟨p, s, h1, h2, h3⟩
+    · left; simp [h1, h2]
+    · rcases ih with ⟨i1, i2⟩ | ⟨ps, ss, i1, i2, i3⟩
+      · left; simp [h1, h2, i1, i2]
+      · right; exact ⟨p :: ps, s :: ss, by simp [h1, i1], by simp [h2, i2], .cons h3 i3⟩
+
+/-- **concat(list, tuple(operands…)) with stored objects among the operands — nodes of the list itself included — is the
+    concat of fresh objects with the payloads resolved before the call** -/
+theorem listConcat_operands {w : World} {c : Nat} {xs : List Tok} (hl : lookup w.objs c = some (.seq .list .probe xs))
+    (items : List RArg) :
+    (toCSrcs w c xs items).bind (listConcatSrc w.next xs []) =
+      (resolveArgs w items).map (fun ps => listConcatArgs w.next xs (ps.map Arg.pay)) := by
+  rcases toCSrcs_spec hl items with ⟨h1, h2⟩ | ⟨ps, ss, h1, h2, h3⟩
+  · simp [h1, h2]
+  · simp [h1, h2, listConcatSrc_stable w.next xs h3 [], listConcatArgs_pays]
+
 /-! ### every aliased call is the plain call with the resolved payloads -/
 
 def lowered (w : World) (o : Option Op) : World × Obs :=
@@ -334,6 +429,44 @@ theorem stepAliased_lower (w : World) (c : Nat) (t : ACall) : stepAliased w c t 
           have hs := toSrc_some (c := c) hr
           simp only [hs, mapRemSrc, readFirst, toSrc_read hs hl, hr, Option.map_some, orBad, Option.getD_some, lowered,
             step, hl]
+  | concat items =>
+    simp only [stepAliased, lowerCall]
+    by_cases hdup : dupOperands w items = true
+    · simp [hdup, lowered]
+    simp only [hdup]
+    cases hl : lookup w.objs c with
+    | none => rfl
+    | some x =>
+      cases x with
+      | map mk kvs => rfl
+      | cell o => rfl
+      | seq k ek xs =>
+        cases ek with
+        | box => cases k <;> rfl
+        | probe =>
+          cases k with
+          | list =>
+            simp only [listConcat_operands hl items]
+            cases hr : resolveArgs w items with
+            | none => simp [orBad, lowered]
+            | some ps => simp [orBad, lowered, step, stepTyped, hl]
+          | array =>
+            by_cases hany : items.any (RArg.inside c) = true
+            · simp [hany, lowered]
+            · simp only [hany]
+              cases hr : resolveArgs w items with
+              | none => simp [orBad, lowered]
+              | some ps => simp [orBad, lowered, step, stepTyped, hl]
+  | newSeq k items =>
+    simp only [stepAliased, lowerCall]
+    cases hr : resolveArgs w items with
+    | none => simp [orBad, lowered]
+    | some ps => simp [orBad, lowered, step]
+  | newMap k pairs =>
+    simp only [stepAliased, lowerCall]
+    cases hr : resolvePairs w pairs with
+    | none => simp [orBad, lowered]
+    | some kvs => simp [orBad, lowered, step]
 
 /-- the plain operation an executed aliased call lowers to is outside the territory of the known findings -/
 theorem lowerCall_nkf {w : World} {c : Nat} {t : ACall} {op : Op} (h : lowerCall w c t = some op) :
@@ -379,6 +512,24 @@ theorem lowerCall_nkf {w : World} {c : Nat} {t : ACall} {op : Op} (h : lowerCall
     split at h
     · simp only [Option.map_eq_some_iff] at h; obtain ⟨_, _, rfl⟩ := h; rfl
     · simp at h
+  | concat items =>
+    simp only [lowerCall] at h
+    split at h
+    · simp at h
+    split at h
+    · rename_i xs hl
+      simp only [Option.map_eq_some_iff] at h; obtain ⟨ps, _, rfl⟩ := h
+      simp [noKnownFinding, typedAtomic, hl, allGood_pays]
+    · rename_i xs hl
+      split at h
+      · simp at h
+      · simp only [Option.map_eq_some_iff] at h; obtain ⟨ps, _, rfl⟩ := h
+        simp [noKnownFinding, typedAtomic, hl, allGood_pays]
+    · simp at h
+  | newSeq k items =>
+    simp only [lowerCall, Option.map_eq_some_iff] at h; obtain ⟨_, _, rfl⟩ := h; rfl
+  | newMap k pairs =>
+    simp only [lowerCall, Option.map_eq_some_iff] at h; obtain ⟨_, _, rfl⟩ := h; rfl
 
 /-- an in-contract operation of an op file with aliased calls IS an in-contract plain operation -/
 theorem inContractA_lower {w : World} {a : AOp} (h : inContractA w a = true) :
